@@ -44,70 +44,111 @@ def run(ctx):
     cu = src.mod(CU)
     gw = cu.func('getinterpweights')
     where = 'src/PseudoNetCDF/%s getinterpweights' % CU
-    # ---- identity and interpolant
-    ident = [st for st in iter_stmts(gw.body) if isinstance(st, ast.Assign) and isinstance(st.value, ast.Call) and (dotted(st.value.func) or '').split('.')[-1] in ('identity', 'eye')]
+    # ---- path-wise, temporaries substituted (paths.py): what getinterpweights returns
+    #   extrapolate true :  I = interp1d(xs, identity(xs.size), axis=-1, kind='linear', ...)(nxs)
+    #   extrapolate false:  C / C.sum(0)  with  C = maximum(0, I)
+    from .. import paths as _paths
     params = [a.arg for a in gw.args.args]
-    if not ident:
-        raise AnalysisError('anchor vanished: identity matrix in getinterpweights')
-    if norm(ident[0].value.args[0]) in ('%s.size' % params[0], 'len(%s)' % params[0], '%s.shape[0]' % params[0]):
-        ctx.ok('R-PARTUNITY', 'identity size', where, norm(ident[0]))
-    else:
-        ctx.violation(Finding('R-PARTUNITY', CU, 'getinterpweights', ident[0], 'the identity matrix has size %s, not the number of source coordinates (%s.size): the weight matrix is not (old, new)' % (
-            norm(ident[0].value.args[0]), params[0])))
-    ip = _calls(gw, 'interp1d')
-    if not ip:
+    if len(params) < 2 or not _calls(gw, 'interp1d'):
         raise AnalysisError('anchor vanished: interp1d in getinterpweights')
-    c = ip[0]
-    ax, kd = kw(c, 'axis'), kw(c, 'kind')
-    okax = ax is not None and norm(ax) in ('-1', '1')
-    okkd = kd is None or const_str(kd) == 'linear'
-    okargs = len(c.args) >= 2 and norm(c.args[0]) == params[0] and isinstance(c.args[1], ast.Name) and c.args[1].id == norm(ident[0].targets[0])
-    extra_kw = [k.arg for k in c.keywords if k.arg not in ('axis', 'kind', 'bounds_error', 'fill_value', 'copy')]
-    if extra_kw:
-        ctx.violation(Finding('R-PARTUNITY', CU, 'getinterpweights', api.stmt_of(c), 'interp1d is called with %s: with assume_sorted=True a decreasing source coordinate (pressure, sigma) is not sorted and every target is '
-                              'extrapolated from an end segment' % extra_kw), oid='interpolant')
-    elif okax and okkd and okargs:
-        ctx.ok('R-PARTUNITY', 'interpolant', where, norm(c)[:80])
-    else:
-        ctx.violation(Finding('R-PARTUNITY', CU, 'getinterpweights', api.stmt_of(c), 'the weights are not the linear interpolant of the identity over the source coordinates along its last axis (%s)' % norm(c)[:70]))
-    ev = [st for st in iter_stmts(gw.body) if isinstance(st, ast.Assign) and isinstance(st.value, ast.Call) and norm(st.value.args[0] if st.value.args else st.value) == params[1]]
-    if ev:
-        ctx.ok('R-PARTUNITY', 'evaluated at the targets', where, norm(ev[0]))
-    else:
-        ctx.violation(Finding('R-PARTUNITY', CU, 'getinterpweights', gw.body[-1], 'the interpolant is not evaluated at the target coordinates %s' % params[1]))
-    # ---- clip then normalise over axis 0, inside `if not extrapolate`
-    br = [st for st in gw.body if isinstance(st, ast.If) and norm(st.test) in ('not extrapolate', 'extrapolate is False', 'extrapolate == False')]
-    if not br:
-        ctx.violation(Finding('R-PARTUNITY', CU, 'getinterpweights', gw.body[-1], 'no branch for extrapolate=False: weights outside the source range are negative / exceed one'), oid='branch')
-    else:
-        wname = norm(ev[0].targets[0]) if ev else 'weights'
-        clip = normd = None
-        for i, st in enumerate(br[0].body):
-            t = norm(st)
-            if isinstance(st, ast.Assign) and norm(st.targets[0]) == wname and any(dotted(c_.func) in ('np.maximum', 'np.clip', 'np.fmax') for c_ in ast.walk(st.value) if isinstance(c_, ast.Call)) \
-                    and ('0' in [norm(a) for c_ in ast.walk(st.value) if isinstance(c_, ast.Call) for a in c_.args]):
-                clip = i
-            if (isinstance(st, ast.AugAssign) and isinstance(st.op, ast.Div) and norm(st.target) == wname) or \
-                    (isinstance(st, ast.Assign) and norm(st.targets[0]) == wname and isinstance(st.value, ast.BinOp) and isinstance(st.value.op, ast.Div) and norm(st.value.left) == wname):
-                den = st.value if isinstance(st, ast.AugAssign) else st.value.right
-                normd = (i, den, st)
-        if clip is None:
-            ctx.violation(Finding('R-PARTUNITY', CU, 'getinterpweights', br[0], 'the weights are not clipped at 0 when extrapolation is off: targets outside the source range get negative weights'), oid='clip')
-        else:
-            ctx.ok('R-PARTUNITY', 'clip', where, norm(br[0].body[clip]))
-        if normd is None:
-            ctx.violation(Finding('R-PARTUNITY', CU, 'getinterpweights', br[0], 'the clipped weights are not re-normalised: they no longer sum to one for targets outside the source range'), oid='normalise')
-        else:
-            i, den, st = normd
-            okden = isinstance(den, ast.Call) and isinstance(den.func, ast.Attribute) and den.func.attr == 'sum' and norm(den.func.value) == wname and \
-                ((den.args and norm(den.args[0]) == '0') or (kw(den, 'axis') is not None and norm(kw(den, 'axis')) == '0'))
-            if not okden:
-                ctx.violation(Finding('R-PARTUNITY', CU, 'getinterpweights', st, 'the weights are divided by %s; partition of unity needs the sum over the source axis, %s.sum(0), of the (old, new) matrix' % (norm(den), wname)),
-                              oid='normalise')
-            elif clip is not None and i < clip:
-                ctx.violation(Finding('R-PARTUNITY', CU, 'getinterpweights', st, 'the weights are normalised before they are clipped: after the clip they no longer sum to one'), oid='normalise')
+
+    def interp_parts(e):
+        """-> (interp1d call, evaluation argument) when e is interp1d(...)(x)"""
+        if isinstance(e, ast.Call) and isinstance(e.func, ast.Call) and (dotted(e.func.func) or '').split('.')[-1] == 'interp1d' and len(e.args) == 1:
+            return e.func, e.args[0]
+        return None, None
+
+    def keywords_of(c):
+        out = {}
+        for k in c.keywords:
+            if k.arg is not None:
+                out[k.arg] = k.value
+            elif isinstance(k.value, ast.Call) and dotted(k.value.func) == 'dict':
+                for k2 in k.value.keywords:
+                    out[k2.arg] = k2.value
+            elif isinstance(k.value, ast.Dict):
+                for kk, vv in zip(k.value.keys, k.value.values):
+                    out[const_str(kk)] = vv
             else:
-                ctx.ok('R-PARTUNITY', 'normalise', where, norm(st))
+                out['**'] = k.value
+        return out
+    seen = {}
+
+    def verdict(oid, ok, node, msg, okmsg):
+        if oid in seen and seen[oid][0] is False:
+            return
+        seen[oid] = (ok, node, msg if not ok else okmsg)
+    nclipped = nplain = 0
+    for pth in _paths.function_paths(gw):
+        if pth.exit[0] != 'return':
+            continue
+        res = _paths.expand(pth)
+        if not res.feasible:
+            continue
+        rst, rnew = [(st, new) for st, new in res.stmts if isinstance(st, ast.Return)][-1]
+        W = rnew.value
+        extr = res.polarity('extrapolate')
+        if extr is None:
+            for t_ in ('extrapolate is False', 'extrapolate == False'):
+                if res.polarity(t_) is not None:
+                    extr = not res.polarity(t_)
+        core = W
+        if extr is False:
+            nclipped += 1
+            # normalise
+            if isinstance(W, ast.BinOp) and isinstance(W.op, ast.Div):
+                C, den = W.left, W.right
+                okden = isinstance(den, ast.Call) and isinstance(den.func, ast.Attribute) and den.func.attr == 'sum' and norm(den.func.value) == norm(C) and \
+                    ((den.args and norm(den.args[0]) == '0') or (kw(den, 'axis') is not None and norm(kw(den, 'axis')) == '0'))
+                verdict('normalise', okden, rst, 'the weights are divided by %s; partition of unity needs the sum over the source axis, <weights>.sum(0), of the (old, new) matrix' % norm(den)[:60], 'divided by the column sums')
+                core = C
+            else:
+                inner_div = [x for x in ast.walk(W) if isinstance(x, ast.BinOp) and isinstance(x.op, ast.Div) and any(isinstance(y, ast.Call) and isinstance(y.func, ast.Attribute) and y.func.attr == 'sum' for y in ast.walk(x.right))]
+                if inner_div:
+                    verdict('normalise', False, rst, 'the weights are normalised before they are clipped: after the clip they no longer sum to one', '')
+                else:
+                    verdict('normalise', False, rst, 'the clipped weights are not re-normalised: they no longer sum to one for targets outside the source range', '')
+            # clip
+            isclip = isinstance(core, ast.Call) and dotted(core.func) in ('np.maximum', 'np.clip', 'np.fmax') and '0' in [norm(a_) for a_ in core.args]
+            verdict('clip', isclip, rst, 'the weights are not clipped at 0 when extrapolation is off: targets outside the source range get negative weights', 'clipped at 0')
+            if isclip:
+                cand = [a_ for a_ in core.args if interp_parts(a_)[0] is not None]
+                core = cand[0] if cand else core
+        elif extr is True:
+            nplain += 1
+        ic, at = interp_parts(core)
+        if ic is None:
+            inner = [x for x in ast.walk(W) if interp_parts(x)[0] is not None]
+            if not inner:
+                verdict('evaluated at the targets', False, rst, 'the interpolant is not evaluated at the target coordinates %s' % params[1], '')
+                continue
+            ic, at = interp_parts(inner[0])
+        verdict('evaluated at the targets', norm(at) == params[1], rst, 'the interpolant is not evaluated at the target coordinates %s' % params[1], 'evaluated at %s' % params[1])
+        kws = keywords_of(ic)
+        ident = ic.args[1] if len(ic.args) > 1 else None
+        okid = isinstance(ident, ast.Call) and (dotted(ident.func) or '').split('.')[-1] in ('identity', 'eye') and ident.args
+        if okid:
+            verdict('identity size', norm(ident.args[0]) in ('%s.size' % params[0], 'len(%s)' % params[0], '%s.shape[0]' % params[0]), rst,
+                    'the identity matrix has size %s, not the number of source coordinates (%s.size): the weight matrix is not (old, new)' % (norm(ident.args[0]), params[0]), norm(ident))
+        extra_kw = sorted(k for k in kws if k not in ('axis', 'kind', 'bounds_error', 'fill_value', 'copy'))
+        ax, kd = kws.get('axis'), kws.get('kind')
+        okax = ax is not None and norm(ax) in ('-1', '1')
+        okkd = kd is None or const_str(kd) == 'linear'
+        okargs = len(ic.args) >= 2 and norm(ic.args[0]) == params[0] and okid
+        if extra_kw:
+            verdict('interpolant', False, rst, 'interp1d is called with %s: with assume_sorted=True a decreasing source coordinate (pressure, sigma) is not sorted and every target is '
+                    'extrapolated from an end segment' % extra_kw, '')
+        else:
+            verdict('interpolant', okax and okkd and okargs, rst, 'the weights are not the linear interpolant of the identity over the source coordinates along its last axis (%s)' % norm(ic)[:70], norm(ic)[:80])
+    if nclipped == 0:
+        ctx.violation(Finding('R-PARTUNITY', CU, 'getinterpweights', gw.body[-1], 'no branch for extrapolate=False: weights outside the source range are negative / exceed one'), oid='branch')
+    if not seen:
+        raise AnalysisError('anchor vanished: identity matrix in getinterpweights')
+    for oid, (ok, node, msg) in sorted(seen.items()):
+        if ok:
+            ctx.ok('R-PARTUNITY', oid, where, msg)
+        else:
+            ctx.violation(Finding('R-PARTUNITY', CU, 'getinterpweights', node, msg), oid=oid)
     # ---- applications
     napp = 0
     for rp, q in (('core/_files.py', 'PseudoNetCDFFile.interpDimension'), ('cmaqfiles/_ioapi.py', 'ioapi_base.interpSigma'), ('geoschemfiles/_bpch.py', 'bpch_base.interpSigma')):
